@@ -123,7 +123,9 @@ def hasFetch (st : St) (sl : String) (pt : String) : String :=
     | .w => match st.m.w with
       | none => "no-tx"
       | some bt => run { readOnly := false, db := st.m.db, b := bt }
-    | .r => if st.m.reader then run { readOnly := true, db := st.m.db } else "no-tx"
+    | .r => match st.m.reader with
+      | some snap => run { readOnly := true, db := snap }
+      | none => "no-tx"
   | _, _ => "bad-op"
 
 def step (st : St) (args : List String) : St × String :=
